@@ -28,7 +28,8 @@ RULE = ("streams: `loop` = NoisySamplingSimulator._noisy_sampling run on every (
         "post-selection, keep_heralds, first-batch length), compared field by field with the extracted transition "
         "system; `simulator` = NoisySamplingSimulator.samples on the same grid with a scripted sampling backend "
         "(fast path, empty exits, re-scaled shot limit, source-defined or distribution input, threshold/PNR/no "
-        "detectors, impossible heralds), compared with the extracted `sim_samples`; `bounds` = real "
+        "detectors, impossible heralds), compared with the extracted `sim_samples`; `rescaling` = _compute_samples_with_perf on adversarial floats "
+        "(physical_perf one or two ulps above 1 - zpp) against the model's clamped limit; `bounds` = real "
         "Processor('CliffordClifford2017').samples and Sampler.samples on {0,1,2,5,None}^2 x random processors "
         "(C02 circuits m<=4, noise, heralds anywhere, filter, post-selection, none/PNR/threshold/PPNR detectors): "
         "count <= min, 0 when a limit is 0, every sample has m-#heralds modes, passes the post-selection and holds "
@@ -56,6 +57,8 @@ ASSUMPTIONS = [
     "the test at N = 20000 and is not modelled",
     "floating-point rounding is modelled only where it decides an integer: Python round() in probs_to_sample_count "
     "and ceil() of the re-scaled shot limit (both enter the model as the exact rational value of the float)",
+    "fid 902 is the current configuration of the model (clamped re-scaled shot limit, /repo 869f2c44); the pre-repair "
+    "configuration (fid 912) only backs the *_old_code theorems",
     "bulk native sampling after random_seed is compared in distribution only (multi-threaded kernel)",
 ]
 
@@ -395,7 +398,7 @@ def stream_simulator(ctx):
                 phys, zpp = (1.0 if n >= F else 0.0), 0.0
                 x = Fraction(0)
                 if msh is not None and F >= 2:
-                    x = frac_of_float(msh * (phys / (1 - zpp)))
+                    x = frac_of_float(msh * phys / (1 - zpp))
                 case = {"max_samples": ms, "max_shots": msh, "filter": F, "heralds": {str(k): v for k, v in heralds.items()},
                         "postselect": show_ps(ps_abs) if ps_str else None, "keep_heralds": keep, "detectors": det_kind,
                         "input": inp, "source_defined": source_defined}
@@ -444,7 +447,34 @@ def stream_simulator(ctx):
             if abs(res["logical_perf"] - e_log) > 1e-12:
                 ctx.fail("simulator-perf", "logical performance differs from the counts", case, e_log, res["logical_perf"])
     ctx.streams["simulator"] = len(pend)
-    return reqs[:1]
+
+    # ---- _compute_samples_with_perf on adversarial floats (a probability table may sum to 1.0000000000000002)
+    r = rng.fork("scale")
+    sreqs, spend = [], []
+    sim = NoisySamplingSimulator(pcvl.Clifford2017Backend())
+    for i in range(ctx.n(200, 2000)):
+        F = r.rint(0, 3)
+        msh = r.choice([None, 0, 1, 2, 5, 7, 100, 12345])
+        prep = r.choice([0, 1, 2, 5, 50])
+        zpp = r.choice([0.0, 0.0, 0.1, 0.001, r.rint(0, 999) / 1000])
+        phys = r.choice([1 - zpp, (1 - zpp) * 1.0000000000000002, 1.0000000000000002 * (1 - zpp) + 2e-16, 0.0, (1 - zpp) / 3,
+                         (1 - zpp) * r.rint(0, 1000) / 1000])
+        sim.set_min_detected_photons_filter(F)
+        got = sim._compute_samples_with_perf(prep, phys, zpp, msh)
+        xq = frac_of_float(msh * phys / (1 - zpp)) if (msh is not None and F >= 2) else Fraction(0)
+        sreqs.append((908, [0, F, msh if msh is not None else [], xq, prep]))
+        spend.append(({"filter": F, "max_shots": msh, "prepare_samples": prep, "physical_perf": phys, "zpp": zpp}, got))
+    for (case, got), out in zip(spend, ctx.model.run(sreqs)):
+        exp = (out[0], out[1] if not isinstance(out[1], list) else None)
+        over = case["max_shots"] is not None and got[1] > case["max_shots"]
+        ctx.case(["scale", case], case["filter"] >= 2 and case["max_shots"] is not None, None)
+        ctx.count("scale.clamped" if (case["filter"] >= 2 and case["max_shots"] and case["physical_perf"] > 1 - case["zpp"]) else "scale.plain")
+        if over:
+            ctx.fail("bounds-max_shots-exceeded-by-float-rescaling", "re-scaled shot limit exceeds max_shots", case, case["max_shots"], got[1])
+        elif tuple(got) != exp:
+            ctx.fail("simulator-rescaling", "_compute_samples_with_perf differs from the model", case, exp, list(got))
+    ctx.streams["rescaling"] = len(spend)
+    return reqs[:1] + sreqs[:1]
 
 
 # ------------------------------------------------------------------ stream: bounds and legality on the real processor
@@ -493,7 +523,7 @@ def stream_bounds(ctx, cases_with_accept):
                     noisy_filter = False
                     if cs["flt"] >= 2 and msh is not None and len(got) == msh + 1 and (ms is None or ms > msh):
                         _, ph_, zpp_ = p._source._compute_prob_table(p.input_state.n, cs["flt"])
-                        noisy_filter = zpp_ < 1 and math.ceil(msh * (ph_ / (1 - zpp_))) == msh + 1
+                        noisy_filter = zpp_ < 1 and math.ceil(msh * ph_ / (1 - zpp_)) == msh + 1
                     ctx.fail("bounds-max_shots-exceeded-by-float-rescaling" if noisy_filter else "bounds-exceeded",
                              "more samples than min(max_samples, max_shots)", case, lim, len(got))
                 if lim == 0 and got:
@@ -559,7 +589,8 @@ def gof_processor(ctx, cs, out_spec, out_impl, N, tag):
     if bad is None:
         return
     sig, what = bad
-    # does the observation fit the distribution conditioned WITHOUT the herald photons in the filter?
+    # regression diagnosis (defect repaired by 5caa1a68): does the observation fit the distribution conditioned WITHOUT the
+    # herald photons in the filter?
     if herald_photons > 0 and out_impl is not None:
         i_phys, i_log, i_dist = un_pipe(out_impl[1])
         pv2, _, _, imp2 = chi_square(i_dist, obs, n)
@@ -844,7 +875,8 @@ def stream_counts(ctx):
 
 # ------------------------------------------------------------------ witnesses of the design round
 def witness_checks(ctx):
-    """Design-round witnesses (DESIGN.md section 9 rows 8 and 14) and the float re-scaling of max_shots."""
+    """Regression guards: the witnesses of the three defects repaired in /repo (5caa1a68, 96b1fd83, 869f2c44) —
+    DESIGN.md section 9 rows 8 and 14 and the float re-scaling of max_shots. They must pass; a failure here is a VIOLATION."""
     import perceval as pcvl
     from perceval.components import catalog, Detector
     BS_ = pcvl.BasicState
@@ -943,8 +975,9 @@ def run(ctx):
                 ctx.fail("model-pipeline-vs-condition", "pipeline and conditioning performances differ on an instance", describe(cs), cd[:2], pl[:2])
         ready.append((cs, o_spec, o_impl))
     def acceptance(o_spec, o_impl):
-        """probability that a shot is accepted, under the statement's reading of the filter (with the herald photons)
-        and under the one the sampler applies today (without): unbounded sampling is only started when neither is tiny"""
+        """probability that a shot is accepted, under the statement's reading of the filter (with the herald photons, what
+        the sampler applies since 5caa1a68) and under the pre-repair one (without): unbounded sampling is only started when
+        neither is tiny, so a regression cannot hang the run"""
         a = [un_pipe(o[1])[0] * un_pipe(o[1])[1] for o in (o_spec, o_impl)]
         return min(a)
 
